@@ -12,6 +12,7 @@ import (
 
 	"verifharness/engines/c01"
 	"verifharness/engines/c04"
+	"verifharness/engines/c06"
 	"verifharness/engines/c08"
 	"verifharness/engines/c10"
 	"verifharness/engines/c14"
@@ -23,6 +24,7 @@ import (
 var engines = map[string]func(*gen.Ctx) error{
 	"c01": c01.Run,
 	"c04": c04.Run,
+	"c06": c06.Run,
 	"c03": pipe.RunAs("C03"),
 	"c07": pipe.RunAs("C07"),
 	"c09": pipe.RunAs("C09"),
